@@ -4,7 +4,9 @@ from bounded.common import outcome
 
 RULE = ("every vertex of every order k = 1..5 (quick) / 1..7 (thorough) plus seeded vertices for k = 8..12; successor and "
         "predecessor lists against the k-mer string operations (drop first + append / drop last + prepend), duality, "
-        "int paths of dna_to_number / number_to_dna; complete accessor for k <= 4 (quick) / 6 (thorough); non-trivial = k >= 2")
+        "int paths of dna_to_number / number_to_dna; complete accessor for k <= 4 (quick) / 6 (thorough); every graph built (valid / coding graph, t = 1, 2) or "
+        "converted (latter map with and without trimming, adjacency matrix) from seeded masks / arc subsets, k = 1..3, holds -1 or the j-th shift successor "
+        "in column j; non-trivial = k >= 2")
 EXHAUSTIVE = {"quick": False, "thorough": False}
 CHUNK = 256
 
@@ -19,6 +21,11 @@ def cases(tier, rng):
             yield {"kind": "vertex", "k": k, "v": rng.randrange(4 ** k), "nt": True}
     for k in range(1, 5 if tier == "quick" else 7):
         yield {"kind": "complete", "k": k, "nt": True}
+    # 'every graph the library builds or converts holds in column j either -1 or that successor': generation (valid / coding graph) and the
+    # conversions (latter map, adjacency matrix) on seeded masks / arc subsets
+    for k in (1, 2, 3):
+        for _ in range(12 if tier == "quick" else 120):
+            yield {"kind": "built", "k": k, "seed": rng.getrandbits(32), "nt": True}
 
 
 def check(case):
@@ -31,6 +38,42 @@ def check(case):
             int(r[1][v][j]) == S.val4(S.kmer(v, k)[1:] + S.NUC[j]) for v in range(4 ** k) for j in range(4))
         if not ok:
             fails.append(("get_complete_accessor", f"get_complete_accessor({k}) is not the shift-append table"))
+        return fails
+    if case["kind"] == "built":
+        import random
+        import numpy
+        from dsw import (connect_valid_graph, connect_coding_graph, accessor_to_latter_map, latter_map_to_accessor, accessor_to_adjacency_matrix,
+                         adjacency_matrix_to_accessor)
+        r = random.Random(case["seed"])
+        n = 4 ** k
+
+        def shift_table(tag, acc):
+            ok = getattr(acc, "shape", None) == (n, 4) and all(int(acc[v][j]) in (-1, S.succ(v, j, k)) for v in range(n) for j in range(4))
+            if not ok:
+                fails.append(("built:" + tag, f"k={k} seed={case['seed']}: {tag} holds an entry that is neither -1 nor the j-th shift successor"))
+            return ok
+        mask = numpy.array([1 if r.random() < 0.7 else 0 for _ in range(n)])
+        g = outcome(connect_valid_graph, k, mask)
+        if g[0] == "ok":
+            shift_table("connect_valid_graph", g[1])
+        for t in (1, 2):
+            g = outcome(connect_coding_graph, k, mask.copy(), t)
+            if g[0] == "ok":
+                shift_table(f"connect_coding_graph(t={t})", g[1][1])
+        sub = numpy.array([[S.succ(v, j, k) if r.random() < 0.6 else -1 for j in range(4)] for v in range(n)])
+        lm = outcome(accessor_to_latter_map, sub.copy())
+        if lm[0] == "ok":
+            back = outcome(latter_map_to_accessor, lm[1], k)
+            if back[0] == "ok" and shift_table("latter_map_to_accessor", back[1]) and not (back[1] == sub).all():
+                fails.append(("built:latter_map_roundtrip", f"k={k} seed={case['seed']}: accessor -> latter map -> accessor differs"))
+            trimmed = outcome(latter_map_to_accessor, lm[1], k, threshold=2)
+            if trimmed[0] == "ok":
+                shift_table("latter_map_to_accessor(threshold=2)", trimmed[1])
+        mx = outcome(accessor_to_adjacency_matrix, sub.copy())
+        if mx[0] == "ok":
+            back = outcome(adjacency_matrix_to_accessor, mx[1])
+            if back[0] == "ok":
+                shift_table("adjacency_matrix_to_accessor", back[1])
         return fails
     v = case["v"]
     s = S.kmer(v, k)
